@@ -1,3 +1,6 @@
 pub mod content;
 pub mod content_ws;
 pub mod merge_content;
+pub mod expr_guard;
+pub mod expr_parse;
+pub mod conflict;
